@@ -9,6 +9,7 @@
 mod case;
 mod check;
 mod driver;
+mod enumcases;
 mod explain;
 mod gen;
 mod interp;
